@@ -284,6 +284,20 @@ func genAdd(g *G) Step {
 		}
 		c := cands[g.Weighted(ws, "argClass")]
 		a := g.Pick(c, "arg")
+		if len(args) > 0 && g.Chance(30, "relatedToEarlierArg") {
+			// an argument whose spelling starts with an earlier argument without lying beneath it (lib, then lib2/b.c or lib.txt),
+			// or that lies beneath it: arguments of one call must be handled independently of each other
+			first := args[0]
+			var rel []string
+			for _, x := range append(append([]string{}, files...), dirs...) {
+				if x != first && strings.HasPrefix(x, first) {
+					rel = append(rel, x)
+				}
+			}
+			if len(rel) > 0 {
+				a = g.Pick(rel, "relatedArg")
+			}
+		}
 		if g.E.Cur.Work.Dirs[a] || hasFile(g.E.Cur, a) {
 			a = g.absSpelling(a)
 		}
